@@ -34,7 +34,7 @@ fn gc_parked(wait: Duration) -> bool {
     }
 }
 
-pub fn run(dir: PathBuf, clock: Option<u64>, gate_gc: bool) {
+pub fn run(dir: PathBuf, clock: Option<u64>, gate_gc: bool, http: bool) {
     let rt = tokio::runtime::Builder::new_multi_thread()
         .worker_threads(4)
         .enable_all()
@@ -44,11 +44,31 @@ pub fn run(dir: PathBuf, clock: Option<u64>, gate_gc: bool) {
     if gate_gc {
         verif::set_gates(&["gc"]);
     }
-    let store = Store::new(dir);
+    let store = Store::new(dir.clone());
+    let sock = dir.join("sock");
+    let mut ready = json!({"ready": true});
+    if http {
+        // the real front end: api::serve on the store's unix socket (appends xs.start first)
+        let engine = xs::nu::Engine::new().expect("engine");
+        let s2 = store.clone();
+        rt.spawn(async move {
+            let _ = xs::api::serve(s2, engine, None).await;
+        });
+        let deadline = std::time::Instant::now() + Duration::from_secs(10);
+        while std::os::unix::net::UnixStream::connect(&sock).is_err() {
+            if std::time::Instant::now() > deadline {
+                println!("{}", json!({"ready": false, "err": "socket did not come up"}));
+                std::process::exit(3);
+            }
+            std::thread::sleep(Duration::from_millis(2));
+        }
+        ready["start"] = json!(store.head("xs.start", xs::store::ZERO_CONTEXT).map(|f| frame_json(&f)));
+    }
     let stdin = std::io::stdin();
     let stdout = std::io::stdout();
     let mut out = stdout.lock();
-    println!("{}", json!({"ready": true}));
+    println!("{}", ready);
+    let mut nth: u64 = 0;
     for line in stdin.lock().lines() {
         let line = line.unwrap();
         if line.trim().is_empty() {
@@ -57,7 +77,23 @@ pub fn run(dir: PathBuf, clock: Option<u64>, gate_gc: bool) {
         let req: Value = serde_json::from_str(&line).expect("request json");
         let op = req["op"].as_str().unwrap_or("");
         // a panic inside the code under test is an observation, not a harness failure
+        nth += 1;
         let res = std::panic::catch_unwind(std::panic::AssertUnwindSafe(|| {
+            if http {
+                if op == "bad" {
+                    let before = store.verif_dump();
+                    let class = req["class"].as_str().unwrap_or("");
+                    let (r, expect) = crate::http::bad(&sock, class);
+                    // the server must still answer the next request
+                    let next = crate::http::req(&sock, "GET", "/version", &[], &[]);
+                    let after = store.verif_dump();
+                    return json!({"status": r.status, "expect": expect, "same": before == after,
+                                  "next_status": next.status, "body": String::from_utf8_lossy(&r.body)});
+                }
+                if let Some(v) = crate::http::exec(&sock, op, &req, nth) {
+                    return v;
+                }
+            }
             exec(&rt, &store, op, &req, gate_gc)
         }));
         let resp = match res {
